@@ -98,7 +98,7 @@ type CheckerMeta struct {
 
 var checkers = map[string]Checker{}
 
-func Register(c Checker) { checkers[c.ID()] = c }
+func Register(c Checker)    { checkers[c.ID()] = c }
 func Get(id string) Checker { return checkers[id] }
 func IDs() []string {
 	var ids []string
